@@ -43,41 +43,43 @@ theorem C07_open_counts (s : State) (choice : Option Int) (createOk : Bool)
   simp only [gateReady] at h1 h2 h3 h4 h5 c1
   exact ⟨c1, c2, c3, h3, h1, h2, h5, h4⟩
 
-/-- **C07 — the retry loop opens no hand on a break, before blinds are set, or once the table shows a hand**: a turn of
-`tableGameOpen`'s retry loop (3 s after a refused attempt, lock held) then changes nothing at all. -/
+/-- a turn of `tableGameOpen`'s retry loop waits 3 s and then looks whether the table was closed or released meanwhile,
+before anything else (regenerated from table_engine_stage.go) — `TB.retryOpen`'s first test -/
+theorem C07_retry_head_fact : Facts.retryLoopHead =
+    ["time.Sleep(time.Second * 3)", "if te.isReleased || te.table.State.Status == TableStateStatus_TableClosed { return nil }"] := by decide
+
+/-- **C07 — the retry loop opens no hand on a closed or released table, on a break, before blinds are set, or once the
+table shows a hand**: a turn of `tableGameOpen`'s retry loop (3 s after a refused attempt, lock held) then changes nothing
+at all.  (Closed / released: D32, fixed — the loop did not look.) -/
 theorem C07_retry_no_open_when (s : State) (choice : Option Int) (createOk : Bool)
-    (h : inHandStatus s.status = true ∨ s.blind.isBreaking = true ∨ s.blind.isSet = false) :
+    (h : s.released = true ∨ s.status = .closed ∨ inHandStatus s.status = true ∨ s.blind.isBreaking = true ∨ s.blind.isSet = false) :
     (retryOpen s choice createOk).2 ≠ .opened ∧ (retryOpen s choice createOk).2 ≠ .startFailed ∧
     (retryOpen s choice createOk).1 = s := by
-  unfold retryOpen
-  by_cases h1 : inHandStatus s.status = true
-  · simp [h1]
-  · by_cases h2 : s.blind.isSet = true
-    · by_cases h3 : s.blind.isBreaking = true
-      · simp [h1, h2, h3]
-      · rcases h with h | h | h
-        · exact absurd h h1
-        · exact absurd h h3
-        · rw [h] at h2; cases h2
-    · simp [h1, h2]
+  rcases retryOpen_cases s choice createOk with hc | hc | ⟨h1, h2, h3, h4, h5, _⟩
+  · rw [hc]; simp
+  · rw [hc]; simp
+  · exfalso
+    rcases h with h | h | h | h | h
+    · rw [h] at h1; cases h1
+    · exact h2 h
+    · rw [h] at h3; cases h3
+    · rw [h] at h5; cases h5
+    · rw [h] at h4; cases h4
 
 /-- **C07 — a hand opened by the retry loop** raises the game count by exactly one, goes to `playing` and carries a hand;
-it opens only when the table shows no hand status and the blinds are set and not a break. -/
+it opens only when the table is neither closed nor released, shows no hand status and the blinds are set and not a break. -/
 theorem C07_retry_open_counts (s : State) (choice : Option Int) (createOk : Bool)
     (h : (retryOpen s choice createOk).2 = .opened) :
     (retryOpen s choice createOk).1.gameCount = s.gameCount + 1 ∧
     (retryOpen s choice createOk).1.status = .playing ∧ (retryOpen s choice createOk).1.hasGame = true ∧
+    s.released = false ∧ s.status ≠ .closed ∧
     inHandStatus s.status = false ∧ s.blind.isBreaking = false ∧ s.blind.isSet = true := by
-  unfold retryOpen at h ⊢
-  by_cases h1 : inHandStatus s.status = true
-  · simp [h1] at h
-  · by_cases h2 : s.blind.isSet = true
-    · by_cases h3 : s.blind.isBreaking = true
-      · simp [h1, h2, h3] at h
-      · simp only [h1, h2, h3, Bool.not_true, Bool.false_eq_true, if_false] at h ⊢
-        obtain ⟨c1, c2, c3, _, _⟩ := openCore_opened _ _ _ h
-        exact ⟨c1, c2, c3, by simpa using h1, by simpa using h3, trivial⟩
-    · simp [h1, h2] at h
+  rcases retryOpen_cases s choice createOk with hc | hc | ⟨h1, h2, h3, h4, h5, hc⟩
+  · rw [hc] at h; cases h
+  · rw [hc] at h; cases h
+  · rw [hc] at h ⊢
+    obtain ⟨c1, c2, c3, _, _⟩ := openCore_opened _ _ _ h
+    exact ⟨c1, c2, c3, h1, h2, h3, h5, h4⟩
 
 /-- **C07 — the game count changes at no other step**: a fire that does not open, a settlement, the continue step
 and every administrative operation leave it alone. -/
